@@ -24,7 +24,11 @@ ImOp(e) == [op |-> e.op, x |-> Xi(e), v |-> IF Has(e, "v") THEN Vi(e) ELSE <<>>,
 \* ---- outcome predicates (X, Y = real and imaginary parts of the operand before the call) ----
 Unchanged(e, X, Y) == SameSeq(e.post, X) /\ (Cx(e) => SameSeq(e.posti, Y))
 GoodMut(e, PX, PY) == ~e.panic /\ SameSeq(e.post, PX) /\ (Cx(e) => SameSeq(e.posti, PY))
-GoodV(e, X, Y, rx, ry) == ~e.panic /\ Unchanged(e, X, Y) /\ SameSeq(e.rv, rx) /\ (Cx(e) => SameSeq(e.rvi, ry))
+\* `adopt`: the caller keeps the returned vector as the new value of its variable (x = x - y; x = Vector::zeros(n); ...):
+\* the operand itself is consumed or dropped, the logged post-state is the returned vector
+Adopt(e) == Has(e, "adopt") /\ e.adopt
+Kept(e, X, Y) == IF Adopt(e) THEN SameSeq(e.post, e.rv) /\ (Cx(e) => SameSeq(e.posti, e.rvi)) ELSE Unchanged(e, X, Y)
+GoodV(e, X, Y, rx, ry) == ~e.panic /\ Kept(e, X, Y) /\ SameSeq(e.rv, rx) /\ (Cx(e) => SameSeq(e.rvi, ry))
 GoodS(e, X, Y, sx, sy) == ~e.panic /\ Unchanged(e, X, Y) /\ e.ri = sx /\ (Cx(e) => e.rii = sy)
 GoodI(e, X, Y, n) == ~e.panic /\ Unchanged(e, X, Y) /\ e.ri = n
 OutOfDomain(e, X, Y) == Unchanged(e, X, Y)             \* no result is defined; the operand must not be written
@@ -66,7 +70,7 @@ Explained(e, X, Y) ==
     [] e.op = "sub" -> IF SameSize(X, e.v) THEN GoodV(e, X, Y, Sub(X, e.v), IF Cx(e) THEN Sub(Y, Vi(e)) ELSE Y) ELSE OutOfDomain(e, X, Y)
     [] e.op = "neg" -> GoodV(e, X, Y, Neg(X), IF Cx(e) THEN Neg(Y) ELSE Y)
     [] e.op = "mul_scalar" -> IF Cx(e) THEN GoodV(e, X, Y, CScaleRe(X, Y, e.x, Xi(e)), CScaleIm(X, Y, e.x, Xi(e))) ELSE GoodV(e, X, Y, Scale(X, e.x), Y)
-    [] e.op = "div_scalar" -> /\ ~e.panic /\ Unchanged(e, X, Y) /\ Len(e.rv) = Len(X)
+    [] e.op = "div_scalar" -> /\ ~e.panic /\ Kept(e, X, Y) /\ Len(e.rv) = Len(X)
                               /\ IF Cx(e) THEN Len(e.rvi) = Len(X) /\ CIsQuot(e.rv, e.rvi, X, Y, e.x, Xi(e)) ELSE IsQuot(e.rv, X, e.x)
     [] e.op = "dot" -> IF SameSize(X, e.v)
                          THEN (IF Cx(e) THEN GoodS(e, X, Y, CDotRe(X, Y, e.v, Vi(e)), CDotIm(X, Y, e.v, Vi(e))) ELSE GoodS(e, X, Y, Dot(X, e.v), 0))
@@ -87,7 +91,7 @@ Explained(e, X, Y) ==
                                 /\ IF Cx(e) THEN Len(e.rsi) = Len(e.rs) /\ \A k \in 1..Len(e.rs) : <<e.rs[k], e.rsi[k]>> = CProductSlice(X, Y, e.a, e.a + k - 1)
                                             ELSE \A k \in 1..Len(e.rs) : e.rs[k] = ProductSlice(X, e.a, e.a + k - 1)
     \* absolute value and the exact norms; complex moduli are certified by m >= 0 /\ m^2 = re^2 + im^2 (e.mods)
-    [] e.op = "abs" -> IF Cx(e) THEN ~e.panic /\ Unchanged(e, X, Y) /\ IsModulusVec(e.rv, X, Y) /\ SameSeq(e.rvi, Zeros(Len(X)))
+    [] e.op = "abs" -> IF Cx(e) THEN ~e.panic /\ Kept(e, X, Y) /\ IsModulusVec(e.rv, X, Y) /\ SameSeq(e.rvi, Zeros(Len(X)))
                                 ELSE GoodV(e, X, Y, Abs(X), Y)
     [] e.op = "norm_1" -> IF Cx(e) THEN IsModulusVec(e.mods, X, Y) /\ GoodS(e, X, Y, IF Len(X) = 0 THEN 0 ELSE Sum(e.mods), 0)
                                    ELSE GoodS(e, X, Y, Norm1(X), 0)
@@ -96,9 +100,9 @@ Explained(e, X, Y) ==
                               ELSE Undefined(e, X, Y)
     [] e.op = "conj" -> GoodV(e, X, Y, X, Conj(Y))
     [] e.op = "real" -> ~e.panic /\ Unchanged(e, X, Y) /\ SameSeq(e.rv, X)
-    [] e.op = "new" -> ~e.panic /\ SameSeq(e.rv, New(e.n, e.x)) /\ (Cx(e) => SameSeq(e.rvi, New(e.n, Xi(e))))
-    [] e.op = "zeros" -> ~e.panic /\ SameSeq(e.rv, New(e.n, 0)) /\ (Cx(e) => SameSeq(e.rvi, New(e.n, 0)))
-    [] e.op = "ones" -> ~e.panic /\ SameSeq(e.rv, New(e.n, 1)) /\ (Cx(e) => SameSeq(e.rvi, New(e.n, 0)))
+    [] e.op = "new" -> ~e.panic /\ SameSeq(e.rv, New(e.n, e.x)) /\ (Cx(e) => SameSeq(e.rvi, New(e.n, Xi(e)))) /\ (Adopt(e) => Kept(e, X, Y))
+    [] e.op = "zeros" -> ~e.panic /\ SameSeq(e.rv, New(e.n, 0)) /\ (Cx(e) => SameSeq(e.rvi, New(e.n, 0))) /\ (Adopt(e) => Kept(e, X, Y))
+    [] e.op = "ones" -> ~e.panic /\ SameSeq(e.rv, New(e.n, 1)) /\ (Cx(e) => SameSeq(e.rvi, New(e.n, 0))) /\ (Adopt(e) => Kept(e, X, Y))
     \* ---- float clauses: the harness measures, the guard is here ----
     \* norm_2 / norm_p of the current vector (integer-valued f64 data), complex norm_1 / norm_inf / abs on general data:
     \* error against an independent evaluation in units of 4 * max(n,1) * eps * |reference|; for norm_p the unit is
@@ -113,14 +117,17 @@ Explained(e, X, Y) ==
     [] e.op = "fnorms" -> /\ ~e.panic /\ e.u2 <= 2 /\ e.up <= 2 /\ e.chain <= 2 /\ e.tri <= 2 /\ e.homp <= 2
                           /\ e.nonneg /\ e.hom1 /\ e.homi
     \* linspace / powspace (n >= 2): n elements, the first bit-equal to a, the last within 4 units of eps * max(|a|,|b|) of b,
-    \* monotone in the direction of b - a (strictly when the harness certifies that the spacing is far above rounding)
+    \* monotone in the direction of b - a: non-decreasing when b > a, non-increasing when b < a, either one when a = b;
+    \* strictly so when the harness certifies that the spacing is far above rounding.  (a = b and end points 1..8 units in
+    \* the last place apart, where the step is below the rounding error, are generated systematically.)
     [] e.op \in {"linspace", "powspace"} -> /\ ~e.panic /\ e.n >= 2 /\ e.len = e.n /\ e.first_eq /\ e.last_units <= 4
                                             /\ e.mono /\ (e.sep => e.strict)
     [] OTHER -> FALSE
 
 \* the model state after an accepted event
-NextRe(e, X) == IF e.op = "div_assign" THEN e.post ELSE IF e.op = "mul_assign" /\ Cx(e) THEN e.post ELSE IF IsMutator(e) THEN ApplyOp(X, e) ELSE X
+NextRe(e, X) == IF Adopt(e) /\ ~e.panic THEN e.rv ELSE IF e.op = "div_assign" THEN e.post ELSE IF e.op = "mul_assign" /\ Cx(e) THEN e.post ELSE IF IsMutator(e) THEN ApplyOp(X, e) ELSE X
 NextIm(e, Y) == IF ~Cx(e) THEN <<>>
+                ELSE IF Adopt(e) /\ ~e.panic THEN e.rvi
                 ELSE IF e.op \in {"div_assign", "mul_assign"} THEN e.posti
                 ELSE IF IsMutator(e) THEN ApplyOp(Y, ImOp(e)) ELSE Y
 
